@@ -85,7 +85,7 @@ PROPS = {
                         "exhausting the native stack (Zinc: 128 nested containers since fix 6d43cc0; serde_json: 128 JSON levels, i.e. 42 nested grids); "
                         "the deep-chain stream round-trips chains of every container kind at depths 1..127 (Hayson: as far as 127 JSON levels reach), "
                         "so a lowered limit is reported"],
-        "require_strata": {"both": ["deep-chain:mixed", "deep-chain:grid", "grid:meta", "grid:colmeta", "grid:zero-rows", "grid:missing-cell", "grid:null-cell", "num:nan",
+        "require_strata": {"both": ["boundary-offset", "deep-chain:mixed", "deep-chain:grid", "grid:meta", "grid:colmeta", "grid:zero-rows", "grid:missing-cell", "grid:null-cell", "num:nan",
                                     "num:inf", "num:neg0", "num:subnormal", "num:unit", "str:astral", "str:control", "str:quote",
                                     "str:backslash", "str:dollar", "dt:zone", "ref:dis", "xstr", "coord", "symbol", "uri"]},
         "min_evals": {"quick": 50_000, "thorough": 1_000_000},
@@ -101,7 +101,7 @@ PROPS = {
                         "'ver' is the reserved version tag of grid meta, not generated as a user meta tag",
                         "chrono-tz is the trusted zone database",
                         "nesting depth as in C01: serde_json refuses more than 128 JSON levels; the deep-chain stream covers every depth below that"],
-        "require_strata": {"both": ["deep-chain:mixed", "deep-chain:grid", "grid:meta", "grid:colmeta", "grid:zero-rows", "grid:missing-cell", "grid:null-cell", "num:nan",
+        "require_strata": {"both": ["boundary-offset", "deep-chain:mixed", "deep-chain:grid", "grid:meta", "grid:colmeta", "grid:zero-rows", "grid:missing-cell", "grid:null-cell", "num:nan",
                                     "num:inf", "num:neg0", "num:subnormal", "num:unit", "num:int>=2^63", "str:astral", "str:control",
                                     "dt:zone", "ref:dis", "typed-impl", "entry:to_string x from_str".replace(" x ", "x"),
                                     "entry:to_valuexfrom_value", "entry:to_vecxfrom_slice", "entry:to_writerxfrom_reader", "entry:to_stringxfrom_reader"]},
@@ -121,7 +121,7 @@ PROPS = {
                  "encoding) or fail for good at a chosen offset (an error must be returned, never success or a panic, and what was "
                  "written is a prefix of the buffered encoding). oracle = returned. distinct = distinct Debug renderings"),
         "assumptions": ["nesting depth <= 64 as the property bounds it", "a returned Err counts as 'returned'"],
-        "require_strata": {"both": ["foreign:json-image", "foreign:zinc-image", "illformed:xstr", "illformed:grid", "illformed:dict",
+        "require_strata": {"both": ["boundary-offset", "huge", "foreign:json-image", "foreign:zinc-image", "illformed:xstr", "illformed:grid", "illformed:dict",
                                     "illformed:dateTime", "illformed:ref", "deep:64", "cross-codec", "writer:short-writes", "writer:fails-midway"]},
         "min_evals": {"quick": 50_000, "thorough": 1_000_000},
     },
@@ -202,7 +202,7 @@ PROPS = {
                         "stack exhaustion depends on the stack: ladders, long runs and flat documents are decoded on a thread with std::thread's "
                         "default 2 MiB stack (where a user's decoder typically runs), not on the 8 MiB main thread; the unchanged tree needs "
                         "less than 512 KiB for 128 nested levels in the dev profile"],
-        "require_strata": {"both": ["outcome:from_str:ok", "outcome:from_str:err", "outcome:reader:ok", "outcome:reader:err", "outcome:lazy:ok",
+        "require_strata": {"both": ["offset-sweep", "digit-runs", "outcome:from_str:ok", "outcome:from_str:err", "outcome:reader:ok", "outcome:reader:err", "outcome:lazy:ok",
                                     "outcome:lazy:err", "outcome:json_slice:ok", "outcome:json_slice:err", "ladder-list:depth100000",
                                     "ladder-grid:depth100000", "ladder-json-list:depth100000", "prefix", "mutant", "corpus-mutant",
                                     "mutation:token-splice", "mutation:comma-insert", "mutation:terminator-delete", "bytes", "unicode-escape", "error-text"]},
@@ -222,7 +222,7 @@ PROPS = {
                         "without a defined order (Bool, Uri, Ref, Symbol), equality of the same instant in two zones",
                         "'^sym' and 'rel?' are evaluated here against the empty default namespace (always false); with real defs in C13",
                         "path resolution of the caller-supplied resolver is the caller's code (delegated to the library's Dict resolver)"],
-        "require_strata": {"both": ["term-matrix", "random", "resolver", "grid"]},
+        "require_strata": {"both": ["long-chain", "term-matrix", "random", "resolver", "grid"]},
         "min_evals": {"quick": 300_000, "thorough": 8_000_000},
     },
     "C08": {
@@ -258,7 +258,7 @@ PROPS = {
         "assumptions": ["termination restated as bounded steps: lexer fuel for parsing, resolver-call cap for evaluation; a loop that touches "
                         "neither is only seen by the wall-clock watchdog (inconclusive)",
                         "ladders, long runs and flat chains are parsed on a thread with std::thread's default 2 MiB stack, in the monitoring and the dev profile"],
-        "require_strata": {"both": ["outcome:ok", "outcome:err", "eval:returned", "ladder-paren:depth100000", "prefix", "mutant", "soup", "relation", "error-text", "ladder-runs:len100000"]},
+        "require_strata": {"both": ["offset-sweep", "digit-runs", "outcome:ok", "outcome:err", "eval:returned", "ladder-paren:depth100000", "prefix", "mutant", "soup", "relation", "error-text", "ladder-runs:len100000"]},
         "min_evals": {"quick": 300_000, "thorough": 10_000_000},
     },
     "C15": {
@@ -273,7 +273,7 @@ PROPS = {
                  "(case flips, trimmed, padded, plural, one character changed) must give None. distinct = distinct (id, magnitude, path) cells"),
         "assumptions": ["exhaustive refers to units x identifiers x the 9 magnitudes; the non-identifier part is sampled",
                         "the unit table (units_generated.rs) is data: the harness enumerates it through the public UNITS map"],
-        "require_strata": {"both": ["lookup", "zinc-decode-by-id", "hayson-decode-by-id", "roundtrip", "zinc-ref-spelling", "non-id"]},
+        "require_strata": {"both": ["cold-start", "lookup", "zinc-decode-by-id", "hayson-decode-by-id", "roundtrip", "zinc-ref-spelling", "non-id"]},
         "min_evals": {"quick": 20_000, "thorough": 100_000},
     },
     "C16": {
@@ -350,7 +350,7 @@ PROPS = {
         "assumptions": ["chrono-tz is the trusted zone database (the property is about libhaystack not losing what it knows)",
                         "zones whose city name is shared with another zone are outside the model (Appendix C)",
                         "exhaustive refers to zones x transitions x listed instants; instants between transitions are covered by C01/C02 sampling"],
-        "require_strata": {"both": ["zone", "transition:fall-back", "transition:spring-forward", "transition:last-nanosecond",
+        "require_strata": {"both": ["cold-start", "zone", "transition:fall-back", "transition:spring-forward", "transition:last-nanosecond",
                                     "transition:skipped-hour-old-offset", "offset-sweep", "utc", "c-api"]},
         "min_evals": {"quick": 200_000, "thorough": 1_000_000},
     },
